@@ -197,6 +197,55 @@ mod test {
     }
 }
 
+/// Verification hooks (compiled only with `--cfg rand_distr_verif`; inert otherwise).
+///
+/// * read-only re-export of the ziggurat tables (the module is private), so that an
+///   external harness can audit them;
+/// * `probe(id)`: reach counters.  A call site marks that a (rare) branch was taken by
+///   setting bit `id` of a thread-local mask which the harness reads with
+///   `take_probes()`.  Probes never alter control flow and never touch the RNG.
+#[cfg(rand_distr_verif)]
+#[doc(hidden)]
+pub mod verif_hooks {
+    use crate::ziggurat_tables as zt;
+
+    /// `(x table, f table, r)` of the normal ziggurat.
+    pub fn zig_norm() -> (&'static [f64; 257], &'static [f64; 257], f64) {
+        (&zt::ZIG_NORM_X, &zt::ZIG_NORM_F, zt::ZIG_NORM_R)
+    }
+
+    /// `(x table, f table, r)` of the exponential ziggurat.
+    pub fn zig_exp() -> (&'static [f64; 257], &'static [f64; 257], f64) {
+        (&zt::ZIG_EXP_X, &zt::ZIG_EXP_F, zt::ZIG_EXP_R)
+    }
+
+    #[cfg(feature = "std")]
+    std::thread_local! {
+        static PROBES: core::cell::Cell<u128> = const { core::cell::Cell::new(0) };
+    }
+
+    /// Mark probe `id` (0..128) as hit.
+    #[inline(always)]
+    pub fn probe(id: u8) {
+        #[cfg(feature = "std")]
+        PROBES.with(|p| p.set(p.get() | (1u128 << (id & 127))));
+        #[cfg(not(feature = "std"))]
+        let _ = id;
+    }
+
+    /// Return and clear the mask of probes hit on this thread.
+    pub fn take_probes() -> u128 {
+        #[cfg(feature = "std")]
+        {
+            PROBES.with(|p| p.replace(0))
+        }
+        #[cfg(not(feature = "std"))]
+        {
+            0
+        }
+    }
+}
+
 mod beta;
 mod binomial;
 mod cauchy;
